@@ -3,7 +3,12 @@ import Frugal.Proofs.DecodeSafe
 import Frugal.Proofs.SkipCorrect
 import Frugal.Proofs.DecodeSound2
 import Frugal.Proofs.DecodeErrors
-import Frugal.Props.Instances
+import Frugal.Props.Inst.Params
+import Frugal.Props.Inst.F_facts_allocationDiscipline
+import Frugal.Props.Inst.F_skeleton_decoder
+import Frugal.Props.Inst.F_valid_minWire
+import Frugal.Props.Inst.F_valid_minWireFixed
+import Frugal.Props.Inst.F_valid_skip
 namespace Frugal.C05
 open Frugal
 
